@@ -207,6 +207,8 @@ class step_limit:
         self.secs = secs
 
     def __enter__(self):
+        import time
+        self.t0 = time.monotonic()
         self.remaining = signal.alarm(0)
         self.old = signal.signal(signal.SIGALRM, self._raise)
         signal.setitimer(signal.ITIMER_REAL, self.secs)
@@ -219,7 +221,8 @@ class step_limit:
         signal.setitimer(signal.ITIMER_REAL, 0)
         signal.signal(signal.SIGALRM, self.old)
         if self.remaining:
-            signal.alarm(max(1, self.remaining - int(self.secs)))
+            import time
+            signal.alarm(max(1, self.remaining - int(time.monotonic() - self.t0)))
         return False
 
 
@@ -284,6 +287,18 @@ def run_bandit(case, driver):
     fails, tags, impl = [], ["kind:bandit", "learner:" + lt], []
     if mis:
         tags.append("misguided:%d" % len(mis))
+    if lt == "eps":
+        e = num(spec["eps"])
+        tags.append("eps:0" if e == 0 else "eps:1" if e == 1 else "eps:tiny" if e < 1e-6 else "eps:mid")
+    if lt == "fixed" and any(p[0] == 0 for p in spec["pmf"]):
+        tags.append("fixed:zero-entry")
+    for kk in (1, 2, 3, 4):
+        st = spec["seed"] % M_
+        for _ in range(kk):
+            st = (A_ * st + C_) % M_
+        if st in (0, M_ - 1):
+            tags.append("seed:uniform-%s-at-draw-%d" % ("0" if st == 0 else "max", kk))
+    seen = set()
     L = mk_learner(spec)
     mirror = UcbMirror() if lt == "ucb" else None
     mhist = []            # the history as the model sees it
@@ -315,6 +330,13 @@ def run_bandit(case, driver):
                 actions = tuple(actions)
             maxn = max(maxn, len(actions))
             tags.append("n:%d" % min(len(actions), 6))
+            if seen and not set(ids) <= seen:
+                tags.append("actions:new-action-appears")
+            if seen and not seen <= set(ids):
+                tags.append("actions:action-disappears")
+            seen.update(ids)
+            if any(r_[1] != 0 for r_ in refs):
+                tags.append("actions:alias-spelling")
             if len(set(ids)) != len(ids):
                 tags.append("dup-actions")
         if name == "predict":
@@ -378,6 +400,10 @@ def run_bandit(case, driver):
                 continue
             if any(v < 0 for v in vec):
                 B("score(%r, %r, .) = %r has a negative entry (call #%d)" % (ctx, actions, vec, k), "score-negative")
+            if len(vec) > 1 and sum(1 for v in vec if v == max(vec)) > 1:
+                tags.append("pmf:tie")
+            if any(v == 0 for v in vec):
+                tags.append("pmf:zero-entry")
             if abs(sum(vec) - 1) > 1e-9:
                 B("score(%r, %r, .) = %r sums to %r, not 1 (call #%d)" % (ctx, actions, vec, sum(vec), k), "score-sum-not-one")
             v = vals_for(ids)
@@ -411,6 +437,10 @@ def run_bandit(case, driver):
                 aid = op["a"][0]
                 aval = resolve(case, op["a"])
             r = num(op["r"])
+            if aid not in seen:
+                tags.append("learn:never-offered-action")
+            if not 0 <= r <= 1:
+                tags.append("reward:outside-[0,1]")
             try:
                 L.learn(ctx, aval, r, num(op.get("p", [1, 2])))
                 impl.append({"op": name, "ok": True})
@@ -428,6 +458,17 @@ def run_bandit(case, driver):
     if driver is not None and mhist:
         ans = driver.ask({"kind": "bandit", "learner": model_learner(spec), "hist": mhist})
         model = ans["outs"]
+        if not malformed:      # (C) run-time guard of the theorems: the model's own answers are what the spec demands
+            for mo in model:
+                if "err" in mo:
+                    fails.append(F("C", "model raises %s inside the quantifier" % mo["err"], "C:%s-err" % lt))
+                elif "pred" in mo:
+                    pm = [unq(x) for x in mo["pmf"]]
+                    i_, p_ = mo["pred"][0], unq(mo["pred"][1])
+                    if sum(pm) != 1 or min(pm) < 0 or not (i_ < len(pm) and pm[i_] == p_ and p_ > 0):
+                        fails.append(F("C", "model predict %s is not (index, pmf[index] > 0) of a distribution" % json.dumps(mo), "C:%s-pred" % lt))
+                elif "score" in mo and unq(mo["score"]) < 0:
+                    fails.append(F("C", "model score negative", "C:%s-score" % lt))
         for pos, kind, val, desc in cmp:
             if pos >= len(model):
                 fails.append(F("A", "%s: the model stopped earlier (%s)" % (desc, json.dumps(model[-1:])), "A:%s-model-stopped" % lt))
@@ -665,6 +706,9 @@ def run_corral(case, driver):
                     if gi is None or ids[gi] != exp_id or not close(gr, exp_r) or not close(gp, exp_p):
                         A("round %d: base learner %d was taught (%r,%r,%r), model (%d,%r,%r)" % (k, j, ga, gr, gp, exp_id, exp_r, exp_p), "feedback")
                         break
+                msps, mspb = [unq(x) for x in ans["state"]["ps"]], [unq(x) for x in ans["state"]["pbars"]]
+                if sum(msps) != 1 or min(msps) <= 0 or sum(mspb) != 1 or min(mspb) <= 0:
+                    fails.append(F("C", "model: Corral weights after the update are not a strictly positive distribution", "C:corral-weights"))
                 if illcond:
                     tags.append("A-skipped:ill-conditioned-update")
                 else:
@@ -840,11 +884,13 @@ def gen_corral(rng, tier, search=False):
     with_fixed = rng.chance(0.3)
     bases = [gen_spec(rng, n_fixed=n if with_fixed else None, allow_mis=rng.chance(0.3), boundary=False) for _ in range(M)]
     stable = with_fixed or rng.chance(0.5)
-    extreme = rng.chance(0.3) or search
+    extreme = rng.chance(0.5 if search else 0.3)
     eta = q(rng.choice([0.01, 0.075, 0.075, 0.1, 0.25, 0.5, 1, 1]))
     if extreme and rng.chance(0.5):
         eta = q(rng.choice([2, 3, 5, 10, 50, 1.5]))
-    T = rng.choice(["inf", "inf", [2, 1], [3, 1], [10, 1], [100, 1], [1000, 1], q(2.5), q(1.5)])
+    T = rng.choice(["inf", "inf", [2, 1], [3, 1], [10, 1], [100, 1], [1000, 1], q(2.5), q(1.5), q(1.25)])
+    if search and rng.chance(0.5):
+        T = rng.choice([q(1.5), [2, 1], q(1.25), [3, 1]])      # strong smoothing / fast learning-rate decay
     case = {"t": "corral", "bases": bases, "eta": eta, "T": T, "mode": rng.choice(["importance", "off-policy"]),
             "seed": rng.choice([1, 2, 0, 500, rng.randint(0, 10 ** 6), seed_for(1, 0)]), "pool": pool, "hist": []}
     if rng.chance(0.12):
@@ -928,7 +974,7 @@ def snippet_corral(case):
 class C16(Property):
     id = "C16"
     prop_modules = ["CobaVerif.Props.C16"]
-    quick_n = 1400
+    quick_n = 4000
     thorough_n = 40000
     search_n = 2500
     case_timeout = 120
